@@ -16,8 +16,9 @@ if REPO != '/repo' or True:
 
 UNIT = 1024
 T = [10 * UNIT]
-patch('time.monotonic', side_effect=lambda: T[0] / UNIT).start()
-patch('time.time', side_effect=lambda: 1.0e6 + T[0] / UNIT).start()
+# plain functions (`new=`), not MagicMocks: a MagicMock records every call for the life of the process
+patch('time.monotonic', new=lambda: T[0] / UNIT).start()
+patch('time.time', new=lambda: 1.0e6 + T[0] / UNIT).start()
 
 CUR = [1]            # index (1-based) of the instance being constructed / acting as "local host"
 
@@ -27,15 +28,15 @@ def _gethostbyaddr(x):
     return f'supv0{ident}.bzh', [f'cliche0{ident}', f'supv0{ident}'], [x]
 
 
-patch('socket.gethostname', side_effect=lambda: f'supv0{CUR[0]}.bzh').start()
-patch('socket.getfqdn', side_effect=lambda *a: f'supv0{CUR[0]}.bzh').start()
-patch('socket.gethostbyaddr', side_effect=_gethostbyaddr).start()
-patch('socket.if_nameindex', return_value=[(1, 'lo'), (2, 'eth0')]).start()
-patch('uuid.getnode', side_effect=lambda: 1250999896491 + CUR[0]).start()
+patch('socket.gethostname', new=lambda: f'supv0{CUR[0]}.bzh').start()
+patch('socket.getfqdn', new=lambda *a: f'supv0{CUR[0]}.bzh').start()
+patch('socket.gethostbyaddr', new=_gethostbyaddr).start()
+patch('socket.if_nameindex', new=lambda: [(1, 'lo'), (2, 'eth0')]).start()
+patch('uuid.getnode', new=lambda: 1250999896491 + CUR[0]).start()
 import supvisors.internal_com.mapper as _mapper_mod
 patch.object(_mapper_mod, 'get_interface_info',
-             side_effect=lambda x: {'lo': ('127.0.0.1', '255.0.0.0'),
-                                    'eth0': (f'10.0.0.{CUR[0]}', '255.255.255.0')}[x]).start()
+             new=lambda x: {'lo': ('127.0.0.1', '255.0.0.0'),
+                            'eth0': (f'10.0.0.{CUR[0]}', '255.255.255.0')}[x]).start()
 
 import supvisors
 assert os.path.realpath(os.path.dirname(supvisors.__file__)).startswith(os.path.realpath(REPO)), \
@@ -199,6 +200,12 @@ class Sim:
         self.state_modes = SupvisorsStateModes(self); self.context = Context(self)
         self.starter = Starter(self); self.stopper = Stopper(self); self.starter_model = StarterModel(self)
         self.failure_handler = RunningFailureHandler(self); self.parser = None
+        # supervisor.events.callbacks is a module-level list: the listeners of the clusters built earlier (another Net) would stay subscribed
+        # - and alive, with everything they reach - for the life of the process
+        from supervisor import events as _sev
+        self._simnet = net
+        _sev.callbacks[:] = [(t, c) for t, c in _sev.callbacks
+                             if getattr(getattr(getattr(c, '__self__', None), 'supvisors', None), '_simnet', net) is net]
         self.listener = SupervisorListener(self); self.fsm = FiniteStateMachine(self)
         self.rpc_handler = RpcHandler(self); self.rpc_handler.proxy_server = SimProxyServer(self, net)
         self.sessions = Mock(); self.rpc = RPCInterface(self)
